@@ -341,7 +341,10 @@ def float_twin_functions():
     tmp = tempfile.mkdtemp(prefix='c10f_')
     bad = []
     try:
-        lib = ctypes.CDLL(build_shared(SRC, tmp))
+        import subprocess
+        so = os.path.join(tmp, 'libbardell_functions_verif.so')        # the function file alone (the integral tables take minutes to compile)
+        subprocess.check_call(['gcc', '-O1', '-shared', '-fPIC', '-I', os.path.join(os.path.dirname(SRC), '..', 'include'), '-o', so, os.path.join(SRC, 'bardell_functions.c'), '-lm'])
+        lib = ctypes.CDLL(so)
         pts = [Fraction(-1), Fraction(-3, 5), Fraction(0), Fraction(1, 4), Fraction(1)]
         for d, (vec, sca) in enumerate((('calc_vec_f', 'calc_f'), ('calc_vec_fxi', 'calc_fxi'), ('calc_vec_fxixi', 'calc_fxixi'))):
             fv, fs = getattr(lib, vec), getattr(lib, sca)
